@@ -57,7 +57,7 @@ pub fn string_eq(a: &String, b: &String) -> (r: bool)
     ensures r == (a@ == b@),
 { a == b }
 //@extract lsp4spl/src/features/references.rs :: fn find_referenced_identifiers
-//@ rewrite map_or_else_inline string_eq_fields
+//@ rewrite map_entry_from map_or_else_inline map_inline or_else_inline string_eq_fields
 //@ ret r
 //@ sig
     ensures r@ == bound_occurrences(*ident, *entry, *program, *global_table), //# find_referenced_identifiers::the_walk_for_what_the_name_is_bound_to
